@@ -1,6 +1,7 @@
 #!/bin/bash
-# seedin.sh <Cxx> [suffix] [checks...]: take the deliverables of a round-3 sub-agent worktree into seeded/<Cxx>-<suffix> and confirm them.
-P="$1"; S="${2:-f}"; shift; shift || true
+# seedin.sh <Cxx> [suffix] [checks...]: take the deliverables of a sub-agent worktree (/tmp/wt/$SEED_ROUND-<Cxx>, default r7) into seeded/<Cxx>-<suffix> and confirm them.
+P="$1"; S="${2:-g}"; shift; shift || true
+R="${SEED_ROUND:-r7}"
 D=/verif/seeded/$P-$S
-mkdir -p "$D" && cp /tmp/wt/r6-$P/.seed/patch.diff /tmp/wt/r6-$P/.seed/meta.json /tmp/wt/r6-$P/.seed/*_test.go "$D"/ || exit 2
+mkdir -p "$D" && cp /tmp/wt/$R-$P/.seed/patch.diff /tmp/wt/$R-$P/.seed/meta.json /tmp/wt/$R-$P/.seed/*_test.go "$D"/ || exit 2
 /verif/tools/seedcheck.sh "$D" "$P" "$@" 2>&1 | tail -4
